@@ -10,6 +10,17 @@ pub(crate) mod verif_scr {
     use std::cell::Cell;
 
     pub(crate) const NROWS: usize = 12;
+
+    /// `rows!(r, { body })`: the body once per row index 0..NROWS without a loop (Kani has ONE unwind bound per harness;
+    /// a 12-iteration harness loop would force every loop of the code under test to be unwound 13 times)
+    macro_rules! rows {
+        ($r:ident, $body:block) => {
+            { let $r: usize = 0; $body } { let $r: usize = 1; $body } { let $r: usize = 2; $body } { let $r: usize = 3; $body }
+            { let $r: usize = 4; $body } { let $r: usize = 5; $body } { let $r: usize = 6; $body } { let $r: usize = 7; $body }
+            { let $r: usize = 8; $body } { let $r: usize = 9; $body } { let $r: usize = 10; $body } { let $r: usize = 11; $body }
+        };
+    }
+    pub(crate) use rows;
     pub(crate) const CAP: usize = 24;
     /// a single write never spans more rows than this in the harnesses (else `ovf`)
     pub(crate) const MAXWRAP: usize = 4;
@@ -232,9 +243,11 @@ pub(crate) mod verif_scr {
         }
         fn move_cursor_down(&self, n: usize) -> io::Result<()> {
             self.tick()?;
+            // stops at the bottom row of the visible window (= lowest row ever reached once the window is full)
             let r = self.row.get() + n;
             let m = self.maxrow.get();
-            self.row.set(if r > m { m } else { r });
+            let bottom = if m + 1 >= self.h { m } else { self.h - 1 };
+            self.row.set(if r > bottom { bottom } else { r });
             Ok(())
         }
         fn move_cursor_right(&self, _n: usize) -> io::Result<()> {
@@ -370,15 +383,13 @@ pub(crate) mod verif_scr {
     /// Put the screen into the state "log rows above, a previous frame of `b` rows ending at the cursor row `r0`"
     pub(crate) fn scr_with_frame(scr: &Scr, r0: usize, b: usize) {
         let fs = r0 + 1 - b;
-        let mut i = 0;
-        while i < NROWS {
+        rows!(i, {
             if i < fs {
                 scr.tags[i].set(T_LOG);
             } else if i <= r0 {
                 scr.tags[i].set(T_OLD);
             }
-            i += 1;
-        }
+        });
         if b > 0 {
             scr.row.set(r0);
             scr.col.set(scr.w);
